@@ -36,7 +36,7 @@ ASSUMPTIONS = [
     "the library non-terminals seq//1, seqq//1 and ...//0 are given to the model as the clauses of dcgs.pl (their own rules translated by the model)",
 ]
 
-IMPL_ENV = {"SV_TIMEOUT_MS": "60000"}
+IMPL_ENV = {"SV_TIMEOUT_MS": "6000"}
 MAXA = 10
 
 
@@ -390,6 +390,7 @@ class Gen:
         n = rng.choice([2, 2, 3, 3, 4, 5])
         self.nts = [("n%d_%s" % (i, cid), rng.choice([0, 0, 1, 1, 2])) for i in range(n)]
         self.pool = ['X', 'Y', 'Z']
+        self.headvars = []
 
     def var(self):
         return V(self.rng.choice(self.pool))
@@ -449,34 +450,47 @@ class Gen:
         self.features.add('nonterminal')
         return S(name, *args) if args else A(name)
 
-    def brace(self):
+    def unif(self):
+        x = self.var()
+        d = self.data(1)
+        if x[1] in term_vars(d, []):      # no cyclic terms (outside the model, panics elsewhere)
+            d = A(self.rng.choice(ALPHA))
+        return S('=', x, d)
+
+    def brace(self, nocut=False):
+        """type tests only on head variables: an inlined type test whose argument is a variable's
+        first occurrence is miscompiled (open finding C07-2), which is not this property's subject."""
         rng = self.rng
         r = rng.random()
         self.features.add('{}')
-        if r < 0.35:
-            g = S('=', self.var(), self.data(1))
+        hv = self.headvars
+        if r < 0.35 or (r < 0.7 and not hv):
+            g = self.unif()
         elif r < 0.5:
-            g = S('==', self.var(), self.data(0))
+            g = S('==', V(rng.choice(hv)), self.data(0))
         elif r < 0.6:
-            g = S('\\==', self.var(), self.data(0))
+            g = S('\\==', V(rng.choice(hv)), self.data(0))
         elif r < 0.7:
-            g = S('var', self.var())
+            g = S('var', V(rng.choice(hv)))
         elif r < 0.78:
-            g = S(';', S('=', self.var(), A('a')), S('=', self.var(), A('b')))
-        elif r < 0.86:
+            x = self.var()
+            g = S(';', S('=', x, A('a')), S('=', x, A('b')))
+        elif r < 0.86 and not nocut:
             self.features.add('{!}')
             g = CUT
         elif r < 0.92:
             g = A('fail')
-        elif r < 0.96:
-            g = S(',', S('=', self.var(), self.data(0)), CUT)
+        elif r < 0.96 and not nocut:
+            g = S(',', self.unif(), CUT)
         else:
             g = TRUE
         return S('{}', g)
 
-    def body(self, level, depth):
+    def body(self, level, depth, nocut=False):
+        """`nocut`: inside the condition of (->): a cut there is not local in compiled code (open
+        finding C07-1), which is not this property's subject."""
         rng = self.rng
-        W = [('term', 30), ('nt', 26), ('brace', 10), ('cut', 7)]
+        W = [('term', 30), ('nt', 26), ('brace', 10), ('cut', 0 if nocut else 7)]
         if depth > 0:
             W += [('seq', 34), ('alt', 12), ('bar', 7), ('ite', 9)]
         tot = sum(w for _, w in W)
@@ -491,25 +505,47 @@ class Gen:
         if kind == 'nt':
             return self.ntcall(level)
         if kind == 'brace':
-            return self.brace()
+            return self.brace(nocut)
         if kind == 'cut':
             self.features.add('!')
             return CUT
         if kind == 'seq':
-            return S(',', self.body(level, d), self.body(level, d))
+            return S(',', self.body(level, d, nocut), self.body(level, d, nocut))
         if kind == 'alt':
             self.features.add(';')
-            return S(';', self.body(level, d), self.body(level, d))
+            return S(';', self.body(level, d, nocut), self.body(level, d, nocut))
         if kind == 'bar':
             self.features.add('|')
-            return S('|', self.body(level, d), self.body(level, d))
+            return S('|', self.body(level, d, nocut), self.body(level, d, nocut))
         self.features.add('->;')
-        return S(';', S('->', self.body(level, d), self.body(level, d)), self.body(level, d))
+        return S(';', S('->', self.body(level, d, True), self.body(level, d, nocut)), self.body(level, d, nocut))
 
     def head(self, i):
         name, ar = self.nts[i]
         args = [self.data(1) if self.rng.random() < 0.4 else self.var() for _ in range(ar)]
         return S(name, *args) if args else A(name)
+
+    def finish(self, h, pb, b):
+        """variables that do not occur in the head but several times in the body are bound by a
+        leading `{ini(V..)}`: a variable whose first occurrence is inside a branch of a disjunction
+        and which is used after it is read uninitialised by compiled code (open finding C07-4)."""
+        hv = term_vars(h, [])
+        cnt = {}
+
+        def count(t):
+            if t[0] == 'v':
+                cnt[t[1]] = cnt.get(t[1], 0) + 1
+            elif t[0] == 's':
+                for a in t[2]:
+                    count(a)
+        count(b)
+        if pb is not None:
+            count(pb)
+        extra = [v for v in sorted(cnt) if v not in hv and cnt[v] >= 2]
+        if extra and has_branch(b):
+            self.features.add('ini-prefix')
+            b = S(',', S('{}', S("ini%d_%s" % (len(extra), self.cid), *[V(v) for v in extra])), b)
+        return S('-->', h if pb is None else S(',', h, pb), b)
 
     def rules(self):
         out = []
@@ -517,23 +553,24 @@ class Gen:
         for i in range(len(self.nts)):
             for _ in range(rng.choice([1, 2, 2, 3])):
                 h = self.head(i)
+                self.headvars = term_vars(h, [])
                 r = rng.random()
                 if r < 0.15:
-                    # self recursion after a consuming terminal
+                    # self recursion after a consuming terminal; nothing that could push back in between
                     self.features.add('recursion')
                     name, ar = self.nts[i]
                     rec_args = [self.data(0) for _ in range(ar)]
                     rec = S(name, *rec_args) if rec_args else A(name)
-                    mid = [self.body(i, 1)] if rng.random() < 0.4 else []
-                    b = conj([self.terminal(consuming=True)] + mid + [rec])
-                    out.append(S('-->', h, b))
+                    mid = [self.brace() if rng.random() < 0.5 else self.terminal()] if rng.random() < 0.4 else []
+                    out.append(self.finish(h, None, conj([self.terminal(consuming=True)] + mid + [rec])))
                 elif r < 0.3:
                     self.features.add('pushback')
                     pb = rng.choice([lst([A(rng.choice(ALPHA))]), STR(rng.choice(["a", "ab"])), lst([self.var()]),
                                      lst([A('a'), A('b')]), NIL])
-                    out.append(S('-->', S(',', h, pb), self.body(i, 2)))
+                    out.append(self.finish(h, pb, self.body(i, 2)))
                 else:
-                    out.append(S('-->', h, self.body(i, rng.choice([1, 2, 2, 3]))))
+                    out.append(self.finish(h, None, self.body(i, rng.choice([1, 2, 2, 3]))))
+        self.headvars = []
         return out
 
     def bad_rules(self):
@@ -576,10 +613,11 @@ class Gen:
         return [A(rng.choice(ALPHA[:2] if rng.random() < 0.8 else ALPHA)) for _ in range(n)]
 
     def query(self, k):
-        """(mode, pre, body, S0, S, vars) — body is a grammar body term."""
+        """(mode, kind, pre, body, S0, S) — body is a grammar body term."""
         rng = self.rng
         r = rng.random()
-        if r < 0.6:
+        self.headvars = []
+        if r < 0.55:
             name, ar = self.nts[0] if rng.random() < 0.6 else rng.choice(self.nts)
             args = [V("A%d" % j) if rng.random() < 0.75 else self.data(0) for j in range(ar)]
             body = S(name, *args) if args else A(name)
@@ -589,16 +627,39 @@ class Gen:
         r = rng.random()
         if r < 0.4:
             kind = 'recognise'
-            pre, s0, s = TRUE, lst(self.input_list()), NIL
+            pre, s0, s = [], lst(self.input_list()), NIL
         elif r < 0.75:
             kind = 'remainder'
-            pre, s0, s = TRUE, lst(self.input_list()), V('R')
+            pre, s0, s = [], lst(self.input_list()), V('R')
         else:
             kind = 'generate'
             n = rng.choice([0, 1, 2, 2, 3])
-            pre = S('=', V('L'), lst([V("_E%d" % j) for j in range(n)]))
+            pre = [S('=', V('L'), lst([V("_E%d" % j) for j in range(n)]))]
             s0, s = V('L'), (NIL if rng.random() < 0.6 else V('R'))
-        return mode, kind, pre, body, s0, s
+        if has_cut(body) or rng.random() < 0.1:
+            # a choice point in front of phrase/3: a cut inside the body must not remove it
+            self.features.add('choice-before-phrase')
+            pre = [S(';', S('=', V('W'), A('p')), S('=', V('W'), A('q')))] + pre
+        if mode == 'inline':
+            # the literal body is compiled in place: bind its variables first (C07-2, C07-4)
+            bvs = [v for v in term_vars(body, []) if not v.startswith('_')]
+            if bvs:
+                pre = [S("ini%d_%s" % (len(bvs), self.cid), *[V(v) for v in bvs])] + pre
+        return mode, kind, (conj(pre) if pre else TRUE), body, s0, s
+
+
+def has_branch(t):
+    if t[0] != 's':
+        return False
+    if t[1] in (';', '|', '->') and len(t[2]) == 2:
+        return True
+    return any(has_branch(a) for a in t[2])
+
+
+def has_cut(t):
+    if t == CUT:
+        return True
+    return t[0] == 's' and any(has_cut(a) for a in t[2])
 
 
 def make_case(rng, cid):
@@ -610,6 +671,8 @@ def make_case(rng, cid):
 
 
 def build_case(cid, rules, bad, queries, features):
+    """the abstract case with its model lines; `finish_case` adds the implementation lines once the
+    model has said which queries it can decide."""
     rules = [to_tuple(r) for r in rules]
     bad = [to_tuple(r) for r in bad]
     queries = [(m, k, to_tuple(p), to_tuple(b), to_tuple(s0), to_tuple(s)) for m, k, p, b, s0, s in queries]
@@ -619,57 +682,74 @@ def build_case(cid, rules, bad, queries, features):
     for q in queries:
         uses(q[3], used)
     lib = [c for nm in ('seq', 'seqq', '...') if nm in used for c in LIB[nm]]
-    impl = ["Q\tu_%s\t1\tuse_module(library(dcgs))." % cid]
-    model = []
-    items = []
-    # --- translation
+    inis = [S("ini%d_%s" % (n, cid), *[V("_I%d" % j) for j in range(n)]) for n in range(1, 7)]
+    impl_tr, model, items = [], [], []
     for i, r in enumerate(rules + bad):
         lid = "t%d_%s" % (i, cid)
-        impl.append("Q\t%s\t2\t%s" % (lid, esc("expand_term((%s), T)." % pl(r))))
+        impl_tr.append("Q\t%s\t2\t%s" % (lid, esc("expand_term((%s), T)." % pl(r))))
         model.append("tr\t%s\t%s" % (lid, canon(r)))
         items.append({"id": lid, "kind": "tr", "rule": pl(r)})
-    # --- program
     facts = []
-    prog_model = [canon(c) for c in lib] + [canon(r) for r in rules]
     qlines = []
     for k, (mode, kind, pre, body, s0, s) in enumerate(queries):
         lid = "q%d_%s" % (k, cid)
         vs = []
-        for t in (s0, s, body):
+        for t in (pre, s0, s, body):
             term_vars(t, vs)
         vs = [v for v in vs if not v.startswith("_")]
         tmpl = S('v', *[V(v) for v in vs]) if vs else A('v')
         if mode == 'inline':
-            qtext = "%s, phrase(%s, %s, %s), V = %s." % (pl(pre), pl(body), pl(s0), pl(s), pl(tmpl))
             if s == NIL:
                 qtext = "%s, phrase(%s, %s), V = %s." % (pl(pre), pl(body), pl(s0), pl(tmpl))
+            else:
+                qtext = "%s, phrase(%s, %s, %s), V = %s." % (pl(pre), pl(body), pl(s0), pl(s), pl(tmpl))
             mpre, mbody = pre, body
         else:
             bvs = term_vars(body, [])
             bv = S('bv', *[V(v) for v in bvs]) if bvs else A('bv')
             fact = S("bd%d_%s" % (k, cid), body, bv)
             facts.append(fact)
-            qtext = "%s, %s, phrase(G, %s, %s), V = %s." % (pl(pre), pl(S("bd%d_%s" % (k, cid), V('G'), bv)), pl(s0), pl(s), pl(tmpl))
-            mpre, mbody = S(',', pre, S("bd%d_%s" % (k, cid), V('G'), bv)), V('G')
-        qlines.append((lid, qtext, mode, kind, mpre, mbody, s0, s, tmpl))
-    text = "".join(pl(r) + ".\n" for r in rules) + "".join(pl(f) + ".\n" for f in facts)
-    impl.append("L\tl_%s\tuser\t%s" % (cid, esc(text)))
-    prog_model += [canon(f) for f in facts]
-    for lid, qtext, mode, kind, mpre, mbody, s0, s, tmpl in qlines:
-        impl.append("Q\t%s\t%d\t%s" % (lid, MAXA, esc(qtext)))
-        model.append("run\t%s\t%s\t%s\t%s\t%s\t%s\t%s\t%s\t%d" % (
-            lid, " ;; ".join(prog_model), mode, canon(mpre), canon(mbody), canon(s0), canon(s), canon(tmpl), MAXA))
-        items.append({"id": lid, "kind": "run", "mode": mode, "qkind": kind, "query": qtext})
-    return {"id": cid, "impl": impl, "model": model, "items": items, "program": text, "features": features,
+            call = S("bd%d_%s" % (k, cid), V('G'), bv)
+            qtext = "%s, %s, phrase(G, %s, %s), V = %s." % (pl(pre), pl(call), pl(s0), pl(s), pl(tmpl))
+            mpre, mbody = S(',', pre, call), V('G')
+        qlines.append((lid, qtext, mode, kind, mpre, mbody, s0, s, tmpl, has_cut(body)))
+    text = "".join(pl(r) + ".\n" for r in rules) + "".join(pl(f) + ".\n" for f in facts + inis)
+    prog_model = " ;; ".join([canon(c) for c in lib] + [canon(r) for r in rules] + [canon(f) for f in facts + inis])
+    impl_q = {}
+    for lid, qtext, mode, kind, mpre, mbody, s0, s, tmpl, cut in qlines:
+        impl_q[lid] = "Q\t%s\t%d\t%s" % (lid, MAXA, esc(qtext))
+        args = (canon(mpre), canon(mbody), canon(s0), canon(s), canon(tmpl), MAXA)
+        model.append("run\t%s\t%s\t%s\t%s\t%s\t%s\t%s\t%s\t%d" % ((lid, prog_model, mode) + args))
+        if mode == 'inline' and cut:
+            # what the answers are if the cut of the body is NOT local to phrase/3 (classification only)
+            model.append("run\t%sx\t%s\tleak\t%s\t%s\t%s\t%s\t%s\t%d" % ((lid, prog_model) + args))
+        items.append({"id": lid, "kind": "run", "mode": mode, "qkind": kind, "query": qtext, "cut": cut})
+    return {"id": cid, "model": model, "items": items, "program": text, "features": features,
+            "impl_head": ["Q\tu_%s\t1\tuse_module(library(dcgs))." % cid] + impl_tr +
+                         ["L\tl_%s\tuser\t%s" % (cid, esc(text))],
+            "impl_q": impl_q,
             "abstract": {"rules": rules, "bad": bad, "queries": queries}}
+
+
+def finish_case(c, model):
+    """implementation lines: the queries the model could not decide (out of fuel = possibly
+    non-terminating, cyclic term) are not run."""
+    impl = list(c["impl_head"])
+    for it in c["items"]:
+        if it["kind"] != "run":
+            continue
+        r = model.get(it["id"], "")
+        if r.startswith("R "):
+            impl.append(c["impl_q"][it["id"]])
+        else:
+            it["dropped"] = True
+    c["impl"] = impl
 
 
 def rebuild(c):
     a = c["abstract"]
     return build_case(c["id"], a["rules"], a["bad"], [tuple(q) for q in a["queries"]], c.get("features", []))
 
-
-# ------------------------------------------------------------------ judge
 
 def judge_tr(impl_res, model_res):
     """-> (status, impl_norm, model_norm). status: agree | differ | skip"""
@@ -731,20 +811,28 @@ def run(ctx):
         cases = [rebuild(c) for c in rep]
     else:
         cases = [rebuild(c) for c in diff.load_corpus("C39") if "abstract" in c]
-        n = 260 if tier == "quick" else 2600
+        n = 110 if tier == "quick" else 1500
         for i in range(n):
             cases.append(make_case(rng, "c%d" % i))
     t0 = time.time()
-    impl, model = diff.run_cases(cases, impl_env=IMPL_ENV)
-    # retry transient lines (whole case, sequentially)
-    flaky = [c for c in cases if any(transient(impl.get(it["id"])) for it in c["items"])]
+    model = core.run_model([l for c in cases for l in c["model"]])
+    for c in cases:
+        finish_case(c, model)
+    t1 = time.time()
+    impl = core.run_impl_parallel([c["impl"] for c in cases], env=IMPL_ENV)
+
+    def bad_case(c):
+        return any(transient(impl.get(core.line_id(l))) for l in c["impl"])
+    # a case with a line that hit the watchdog / lost its machine is run again, alone and
+    # sequentially, with a long watchdog, before it is judged
+    flaky = [c for c in cases if bad_case(c)]
     retried = len(flaky)
     if flaky:
-        impl2, _ = diff.run_cases([{"id": c["id"], "impl": c["impl"]} for c in flaky[:300]], impl_env=IMPL_ENV, parallel=False)
-        impl.update(impl2)
-    core.log("[C39] correspondence run: %d cases, %.1fs, %d retried" % (len(cases), time.time() - t0, retried))
+        impl.update(core.run_impl([l for c in flaky[:200] for l in c["impl"]], env={"SV_TIMEOUT_MS": "60000"}))
+    core.log("[C39] correspondence run: %d cases, model %.1fs, implementation %.1fs, %d cases retried" % (
+        len(cases), t1 - t0, time.time() - t1, retried))
     findings = []
-    stats = {"tr": 0, "tr_agree": 0, "run": 0, "run_agree": 0, "oof": 0, "skipped": 0}
+    stats = {"tr": 0, "tr_agree": 0, "run": 0, "run_agree": 0, "dropped_model_undecided": 0, "skipped": 0}
     by_mode, by_kind, feat, tr_kinds = {}, {}, {}, {}
     nontrivial = set()
     samples = []
@@ -752,10 +840,18 @@ def run(ctx):
     for c in cases:
         for f in c["features"]:
             feat[f] = feat.get(f, 0) + 1
+        broken = False     # after a panic the machine (and the loaded grammar) is gone
         for it in c["items"]:
             ir, mr = impl.get(it["id"]), model.get(it["id"])
             if rep is not None:
                 core.log("[C39] %s\n   impl : %s\n   model: %s" % (it.get("query") or it.get("rule"), ir, mr))
+            if it.get("dropped"):
+                stats["dropped_model_undecided"] += 1
+                continue
+            if broken or transient(ir):
+                stats["skipped"] += 1
+                broken = broken or (ir is not None and ir.startswith("panic"))
+                continue
             if it["kind"] == "tr":
                 stats["tr"] += 1
                 st, i_n, m_n = judge_tr(ir, mr)
@@ -779,9 +875,6 @@ def run(ctx):
                 continue
             stats["run"] += 1
             st, i_items, m_items = judge_run(ir, mr)
-            if st in ("oof", "bad-rule"):
-                stats["oof"] += 1
-                continue
             by_mode[it["mode"]] = by_mode.get(it["mode"], 0) + 1
             by_kind[it["qkind"]] = by_kind.get(it["qkind"], 0) + 1
             if st == "agree":
@@ -791,32 +884,38 @@ def run(ctx):
                     if len(samples) < 6 and len(m_items) >= 2:
                         samples.append({"program": c["program"], "query": it["query"], "answers": m_items})
                 continue
-            if st == "impl-unreadable" and transient(ir):
-                stats["skipped"] += 1
-                continue
             first = None
             if i_items is not None and m_items is not None:
                 for a, b in zip(i_items + [None] * len(m_items), m_items + [None] * len(i_items)):
                     if a != b:
                         first = (a, b)
                         break
-            shape = "other"
-            if st == "den-diff":
-                shape = "model-internal"
-            elif first:
-                a, b = first
-                shape = "%s/%s" % (a[0] if a else "none", b[0] if b else "none")
-            sig = {"op": "phrase", "mode": it["mode"], "shape": shape}
+            sig = None
+            if st == "differ" and it["mode"] == "inline" and it.get("cut"):
+                # does the implementation behave as if the body's cut were not local to phrase/3?
+                stx, ix, mx = judge_run(ir, model.get(it["id"] + "x"))
+                if stx == "agree":
+                    sig = {"op": "phrase", "mode": "inline", "defect": "cut-in-goal-expanded-phrase-body-is-not-local"}
+            if sig is None:
+                shape = "other"
+                if st == "den-diff":
+                    shape = "model-internal"
+                elif first:
+                    a, b = first
+                    shape = "%s/%s" % (a[0] if a else "none", b[0] if b else "none")
+                sig = {"op": "phrase", "mode": it["mode"], "shape": shape}
             key = str(sorted(sig.items()))
             if key in seen_sig:
                 continue
             seen_sig.add(key)
             findings.append(core.Finding("violation" if st == "differ" else "disagreement", sig,
                                          "%s [%s]: implementation %s, reference %s; program:\n%s" % (
-                                             it["query"], st, i_items if i_items is not None else ir, m_items if m_items is not None else mr, c["program"]),
+                                             it["query"], st, i_items if i_items is not None else ir,
+                                             m_items if m_items is not None else mr, c["program"]),
                                          case=strip(c)))
+    done = stats["tr"] + stats["run"]
     return {
-        "evaluations": stats["tr"] + stats["run"],
+        "evaluations": done,
         "distinct_nontrivial": len(nontrivial),
         "rule": "random grammars (2-5 non-terminals with 0-2 arguments, bodies of depth <= 3 over terminals as lists/strings/"
                 "variables, non-terminals, {}//0, !, (,), (;), (|), (->;), call//N, seq//1, seqq//1, ...//0, pushback and "
@@ -825,7 +924,7 @@ def run(ctx):
                 "translation item agreeing, or query with at least one answer or ball; distinct by text with the case id removed",
         "samples": samples,
         "traces_validated_against_impl": stats["tr_agree"] + stats["run_agree"],
-        "disagreements_checked": (stats["tr"] + stats["run"]) - (stats["tr_agree"] + stats["run_agree"]) - stats["oof"] - stats["skipped"],
+        "disagreements_checked": done - (stats["tr_agree"] + stats["run_agree"]),
         "retried_after_timeout": retried,
         "stats": stats,
         "queries_by_mode": by_mode,
